@@ -36,7 +36,8 @@ func c18Points(text string) []int {
 	if !ok {
 		return nil
 	}
-	set := map[int]bool{}
+	// the beginning of the file always (what stands there need not be an item yet: a name being typed)
+	set := map[int]bool{0: true}
 	add := func(r hcl.Range) {
 		// only items that start a line
 		b := r.Start.Byte
